@@ -8,12 +8,14 @@ git -C /repo worktree add --detach -f $wt $(cat /tmp/seedwork/BASE 2>/dev/null |
 git -C $wt apply "$patch" || { echo "PATCH-DOES-NOT-APPLY $patch"; git -C /repo worktree remove --force $wt; exit 2; }
 # fixes committed to /repo after the agents' base commit are carried over (skipped with a note if they do not apply)
 if [ -f /tmp/seedwork/BASE ]; then git -C /repo diff $(cat /tmp/seedwork/BASE) HEAD -- src | git -C $wt apply 2>/dev/null || echo "NOTE: later fixes do not apply on top of this patch; running on the base commit"; fi
-cd /verif; mkdir -p out/logs
+# run from a private snapshot of the committed machinery, so that edits in /verif do not reach a running check
+snap=/tmp/seedwork/vsnap_$$; rm -rf $snap; mkdir -p $snap; git -C /verif archive HEAD check mc known_findings.json properties.jsonl | tar -x -C $snap; mkdir -p $snap/out/logs /verif/out/logs; cd $snap
 tag=$(echo "$patch" | tr '/' '_' | sed 's/_tmp_seedwork_//; s/_patch.diff//')
 for id in "$@"; do
   log=out/logs/benign_${tag}_${id}.log
   VERIF_WORKERS=${W:-5} VERIF_COBRA_SRC=$wt/src VERIF_ALLOW_SRC=1 timeout 3000 ./check $id ${TIER:-quick} > $log 2>&1; rc=$?
   echo "BENIGN $tag $id exit=$rc violations=$(grep -c '^VIOLATION' $log) internal=$(grep -c 'INTERNAL-ERROR\|NONDETERMINISM' $log)"
   [ $rc -ne 0 ] && grep -E "^VIOLATION|signature|INTERNAL|NONDET" $log | head -6
+  cp $log /verif/out/logs/ 2>/dev/null
 done
-git -C /repo worktree remove --force $wt
+git -C /repo worktree remove --force $wt; cd /; rm -rf $snap
